@@ -1,5 +1,7 @@
 import LoguruModel.Exc.Model
 import LoguruModel.Exc.Spec
+import LoguruModel.Exc.Frames
+import LoguruModel.Exc.Closing
 import LoguruModel.Driver
 open Exc Py
 
@@ -13,6 +15,12 @@ open Exc Py
   uses <string over d,c>      (flags reported by successive uses of one catch object)
   vlines <maxLen> <repr tok | !> <typename tok>      (number of display lines, characters on them)
   fmtall <limit|n> <maxLen> <fromDec> <budget> <root> <nexc> exn*      (all eight modes)
+  xf <bt> <isFirst> <fromDec> <limit|n> <tb flags|-> <caller flags|->   (`Exc.extractLoop` on a synthetic stack: one
+        character per frame, h = loguru's own file, v = any other; traceback frames are numbered 1.., callers 1001..;
+        answer = `<number>:<mark>` of the frames shown)
+  slice <lo|n> <hi|n> <len>      (`Py.slice` on [0, …, len-1])
+  closing <diagnose> <frames shown> <final source non-empty> <is AssertionError> <e|s|!>   (`Exc.assertSuffix`;
+        str(exc) = empty / non-empty / raises)
 -/
 
 abbrev P := StateT (List String) Option
@@ -119,6 +127,36 @@ def step (line : String) : String :=
         | some s => "ok " ++ encTok (formatValue ml { repr := .ok s, typeName := ty })
         | none => "bad-op"
     | _, _ => "bad-op"
+  | ["xf", bt, fi, fd, lt, tbs, ps] =>
+    let flag (t : String) : Option Bool := if t = "1" then some true else if t = "0" then some false else none
+    let limit : Option (Option Int) := if lt = "n" then some none else lt.toInt?.map some
+    let frames (base : Int) (fl : String) : Option (List Frame) :=
+      if fl = "-" then some [] else
+      let cs := fl.toList
+      if cs.all (fun c => c = 'h' || c = 'v') then
+        some ((List.range cs.length).zip cs |>.map fun (i, c) =>
+          { info := { file := [], line := base + i, func := [], source := [] }, hidden := c = 'h', vals := [] })
+      else none
+    match flag bt, flag fi, flag fd, limit, frames 1 tbs, frames 1001 ps with
+    | some bt, some fi, some fd, some limit, some tb, some parents =>
+      let o : Opts := { backtrace := bt, diagnose := false, colorize := false, limit, maxLen := 128 }
+      "ok" ++ String.join ((extractLoop o fi fd tb parents).map fun s => s!" {s.fr.info.line}:{b s.mark}")
+    | _, _, _, _, _, _ => "bad-op"
+  | ["closing", dg, fr, fs, ia, st] =>
+    let flag (t : String) : Option Bool := if t = "1" then some true else if t = "0" then some false else none
+    let str : Option (Except Err Str) :=
+      if st = "e" then some (.ok []) else if st = "s" then some (.ok ['m']) else if st = "!" then some (.error .other) else none
+    match flag dg, flag fr, flag fs, flag ia, str with
+    | some dg, some fr, some fs, some ia, some str =>
+      match assertSuffix dg fr fs { isAssertion := ia, str } with
+      | .ok r => "ok " ++ b r
+      | .error e => "err " ++ toString e
+    | _, _, _, _, _ => "bad-op"
+  | ["slice", lo, hi, n] =>
+    let bound (t : String) : Option (Option Int) := if t = "n" then some none else t.toInt?.map some
+    match bound lo, bound hi, n.toNat? with
+    | some lo, some hi, some n => "ok" ++ String.join ((Py.slice lo hi (List.range n)).map fun i => s!" {i}")
+    | _, _, _ => "bad-op"
   | "fmtall" :: rest =>
     match pAll.run ("fmtall" :: rest) with
     | some ((heap, limit, maxLen, budget, root, fromDec), []) =>
